@@ -46,7 +46,7 @@ def _canonicalize_axes(rank: int, axes: Axes) -> tuple[int, ...]:
   """Returns a tuple of deduplicated, sorted, and positive axes."""
   if not isinstance(axes, Iterable):
     axes = (axes,)
-  return tuple({rank + axis if axis < 0 else axis for axis in axes})
+  return tuple(sorted({rank + axis if axis < 0 else axis for axis in axes}))
 
 
 def _abs_sq(x):
